@@ -347,6 +347,131 @@ func runC06(w *W) {
 		id := fmt.Sprintf("%s setup=%v events=%v d=%d", sc.Name, sc.Setup, sc.Events, sc.Bound)
 		w.explorerCaseParts(id, sc.Bound, 2, func(r *xrun) []Violation { return runC06Once(w.T, sc, r) })
 	}
+	runC06ScriptedAll(w)
+}
+
+// ---- scripted origin: every sequence of updates about one origin, against a reference model -------------
+
+type c06Upd struct {
+	Epoch, Seq uint64
+	ID         string
+	Conns      map[string]float64
+}
+
+var c06Alphabet = []c06Upd{
+	{1, 1, "u-e1s1", map[string]float64{"p": 1}},
+	{1, 2, "u-e1s2", map[string]float64{"p": 1, "q": 1}},
+	{1, 2, "u-e1s2-other-id", map[string]float64{"p": 2}}, // equal (epoch, seq), different content
+	{2, 1, "u-e2s1", map[string]float64{"p": 3}},          // newer run, lower sequence
+	{1, 9, "u-e1s9", map[string]float64{"p": 4}},          // older run, higher sequence
+	{2, 2, "u-e2s2", map[string]float64{"p": 1}},
+}
+
+func runC06Scripted(t *testing.T, seq []int) CaseOut {
+	var out CaseOut
+	out.Nontrivial = len(seq) > 1
+	synctest.Test(t, func(t *testing.T) {
+		m := newMesh(defaultConsts, "a", "b")
+		m.logEmit = true
+		m.up("a", "b", 1)
+		m.settle()
+		p := m.attach("a", "p")
+		p.inject(mkRoute(wireRoute{NodeID: "p", UpdateID: "p-hello", UpdateEpoch: 5, UpdateSequence: 1, Connections: map[string]float64{"a": 1}, ForwardingNode: "p"}))
+		synctest.Wait()
+		m.settle()
+		// reference model
+		var acc *c06Upd
+		seen := map[string]bool{}
+		wantRelays := map[string]int{}
+		for step, ai := range seq {
+			u := c06Alphabet[ai]
+			fresh := !seen[u.ID]
+			newer := acc == nil || u.Epoch > acc.Epoch || (u.Epoch == acc.Epoch && u.Seq > acc.Seq)
+			seen[u.ID] = true
+			if fresh && newer {
+				cp := u
+				acc = &cp
+				wantRelays[u.ID]++
+			}
+			p.inject(mkRoute(wireRoute{NodeID: "x", UpdateID: u.ID, UpdateEpoch: u.Epoch, UpdateSequence: u.Seq, Connections: u.Conns, ForwardingNode: "p"}))
+			synctest.Wait()
+			m.settle()
+			st := m.nodes["a"].Status()
+			got := st.KnownConnectionCosts["x"]
+			vs := m.nodes["a"].VerifSnapshot()
+			ki := vs.KnownNodes["x"]
+			ctx := fmt.Sprintf("sequence %v step %d (update e%d #%d id %s)", seq, step, u.Epoch, u.Seq, u.ID)
+			if acc != nil {
+				if !reflect.DeepEqual(got, acc.Conns) {
+					kind := "stale"
+					if fresh && newer {
+						kind = "genuine"
+					}
+					out.violate("know:picture-differs-from-reference:"+kind, "%s: a's picture of x is %v, the newest accepted update (e%d #%d) says %v", ctx, got, acc.Epoch, acc.Seq, acc.Conns)
+				}
+				if ki.Epoch != acc.Epoch || ki.Sequence != acc.Seq {
+					out.violate("know:accepted-differs-from-reference", "%s: a accepted (e%d,#%d), reference (e%d,#%d)", ctx, ki.Epoch, ki.Sequence, acc.Epoch, acc.Seq)
+				}
+			}
+		}
+		// relays seen on a>b (delivered or still queued): each genuine update exactly once, nothing else
+		gotRelays := map[string]int{}
+		m.mu.Lock()
+		for _, d := range m.emitted["a>b"] {
+			if len(d) > 0 && d[0] == 1 {
+				var e wireRoute
+				if json.Unmarshal(d[1:], &e) == nil && e.NodeID == "x" {
+					gotRelays[e.UpdateID]++
+				}
+			}
+		}
+		backToSender := 0
+		for _, d := range m.emitted["a>p"] {
+			if len(d) > 0 && d[0] == 1 {
+				var e wireRoute
+				if json.Unmarshal(d[1:], &e) == nil && e.NodeID == "x" {
+					backToSender++
+				}
+			}
+		}
+		m.mu.Unlock()
+		if !reflect.DeepEqual(gotRelays, wantRelays) && !(len(gotRelays) == 0 && len(wantRelays) == 0) {
+			out.violate("flood:relays-differ-from-reference", "sequence %v: relays of x's updates to b: %v, reference %v", seq, gotRelays, wantRelays)
+		}
+		if backToSender > 0 {
+			out.violate("flood:relayed-back-to-sender", "sequence %v: %d updates about x were sent back to the peer they came from", seq, backToSender)
+		}
+		out.Outcome = fmt.Sprintf("len=%d relays=%d", len(seq), len(wantRelays))
+		m.end()
+	})
+	return out
+}
+
+func runC06ScriptedAll(w *W) {
+	maxLen := 4
+	if w.Thorough() {
+		maxLen = 5
+	}
+	var rec func(p []int)
+	rec = func(p []int) {
+		if len(p) > 0 {
+			q := append([]int{}, p...)
+			w.Case(fmt.Sprintf("scripted origin sequence %v", q), func() CaseOut {
+				o := runC06Scripted(w.T, q)
+				if len(q) == 4 && q[0] == 1 && q[1] == 2 && q[2] == 4 && q[3] == 3 {
+					o.Sample = map[string]any{"sequence": q, "alphabet": "0:(e1,#1) 1:(e1,#2) 2:(e1,#2,other id) 3:(e2,#1) 4:(e1,#9) 5:(e2,#2)", "outcome": o.Outcome}
+				}
+				return o
+			})
+		}
+		if len(p) == maxLen {
+			return
+		}
+		for i := range c06Alphabet {
+			rec(append(append([]int{}, p...), i))
+		}
+	}
+	rec(nil)
 }
 
 func init() {
@@ -355,7 +480,8 @@ func init() {
 		Level:     "model_checking",
 		Technique: "stateless deviation-bounded DFS with state-hash pruning over delivery orders, duplication, loss and replay of routing updates between real Netceptor nodes in a synctest bubble; invariants checked around every single delivery through a read-only snapshot of the accepted (epoch, sequence) table",
 		Rule: "scenarios: triangle and 3-chain bring-up, link down / down+up, node restart (new epoch), periodic update, a later-started twin with the same ID (suspected-duplicate notices), silent link; links are bags (any in-flight update may be delivered next) and every in-flight update may be duplicated or dropped and each of the last 3 delivered updates of a link replayed; all schedules with <=d deviations (quick d=1, bring-up 2; thorough 2/3). " +
-			"Monitors per delivery: accepted (epoch,seq) per origin never decreases (except duplicate hand-over); stale/equal/replayed/own updates change nothing and are not relayed; genuine updates are recorded and relayed exactly once to every other neighbour, never back to the sender; no knowledge about itself; flooding comes to rest. A case is one scenario; non-trivial = at least one choice point.",
+			"Monitors per delivery: accepted (epoch,seq) per origin never decreases (except duplicate hand-over); stale/equal/replayed/own updates change nothing and are not relayed; genuine updates are recorded and relayed exactly once to every other neighbour, never back to the sender; no knowledge about itself; flooding comes to rest. A case is one scenario; non-trivial = at least one choice point. " +
+			"Second engine: every sequence (with repetition) of length <=4 (quick) / <=5 (thorough) over a 6-update alphabet about one origin (equal (epoch,seq) with another ID, newer run with lower sequence, older run with higher sequence) sent by a scripted peer, compared step by step with a reference model (lexicographic maximum of unseen updates): picture, accepted (epoch,seq) and relays to the other neighbour.",
 		Assumptions: []string{"macro-step atomicity (one delivery is processed to quiescence before the next)", "a direct peer's own update that stops listing the receiver or disagrees on cost legitimately ends the session and is exempt from the no-change rule"},
 		Run:         runC06,
 		CaseTimeout: 60 * time.Second,
